@@ -71,7 +71,7 @@ def chkJ (w : World) (ms : ModelS) : Json :=
 
 def modelJ (w : World) (_m : Nat) (ms : ModelS) : Json :=
   obj [("g", toJson ms.graph), ("gs", natsJ (sortNats ms.graphs)), ("n", natsJ (sortNats ms.nodes)),
-       ("c", natsJ ms.cfgs), ("ir", toJson ms.irVersion),
+       ("c", natsJ ms.cfgs), ("ir", toJson ms.irVersion), ("f", natsJ ms.funcs),
        ("chk", chkJ w ms), ("ser", serJ w ms)]
 
 def stateJ (w : World) : Json :=
@@ -194,6 +194,9 @@ def parseOp (j : Json) : Except String Op := do
   | "resizeOutputs" => pure (.resizeOutputs (← getNat j "n") (← getNat j "k"))
   | "clone" => pure (.clone (← getNat j "m"))
   | "roundTrip" => pure (.roundTrip (← getNat j "m"))
+  | "newFunction" => pure (.newFunction (← getNat j "m"))
+  | "cloneFunc" => pure (.cloneFunc (← getNat j "m") (← getNat j "i"))
+  | "cloneSub" => pure (.cloneSub (← getNat j "n") (← getNat j "g"))
   | _ => throw s!"unknown op {op}"
 
 /-- one protocol line: an operation of the alphabet (through `step`) or the query `shardingOf`;
@@ -206,7 +209,11 @@ def stepOp (w : World) (j : Json) : Except String (World × Res × Json × Bool)
   else
     let o ← parseOp j
     let r := step w o
-    pure (r.1, r.2, Json.null, decide (Pre w o))
+    -- a round trip below IR version 11 is covered by `C19_roundtrip_legacy` (hypotheses evaluated here)
+    let legacy := match o with
+      | .roundTrip m => decide ((w.model m).irVersion < 11 ∧ Closed w (w.model m) ∧ NamesUnique w (w.model m))
+      | _ => false
+    pure (r.1, r.2, Json.null, decide (Pre w o) || legacy)
 
 def resJ : Res → Json
   | .ok => "ok"
